@@ -89,7 +89,28 @@ KINDS = {
     'map': lambda: M(('x', I(1))),
     'map2': lambda: M(('x', L(I(2))), ('y', S('t'))),
     'list2': lambda: L(M(('x', N))),
+    'emptymap': lambda: ('m', []),
+    'emptylist': lambda: ('l', []),
 }
+
+
+def nested_sequences(rng, n, markers=('', '', '', '~', '=')):
+    """n stacks of 3-5 layers that all define the same key at depth 1-3: each layer gives it a value
+    of a random kind (null often, empty containers too) with an optional marker -- the grouping of
+    layers (what is merged with what, and when) decides the result"""
+    out = []
+    names = list(KINDS)
+    for _ in range(n):
+        depth = rng.randint(1, 3)
+        layers = []
+        for _i in range(rng.randint(3, 5)):
+            kind = 'null' if rng.random() < 0.3 else rng.choice(names)
+            v = M((rng.choice(markers) + 'k', KINDS[kind]()))
+            for d in range(depth - 1, -1, -1):
+                v = M(('p%d' % d, v))
+            layers.append(v)
+        out.append(layers)
+    return out
 
 
 def exhaustive_kind_stacks(maxlayers, markers=('', '~', '=')):
